@@ -12,7 +12,7 @@
   `step` both the transition relation of the theorems and the acceptor of the trace-conformance check (Driver.Life).
 
   The model mirrors the code AFTER the fixes fixes/d05 d06 d10 d14 (see `LifeOld.lean` for the old behaviour as
-  witness).  Program counters are named after Appendix A.  Core Lean only.
+  witness, `LifeSync.lean` / `Tie/Life.lean` for the tie of the program counters to the source).  Program counters are named after Appendix A.  Core Lean only.
 -/
 import Netpoll.Conn.Locker
 namespace Netpoll.Conn.Life
@@ -576,60 +576,6 @@ def S.handlerActive (s : S) : Nat := s.tH
 def S.cbActive (s : S) : Nat :=
   s.cbD + s.cbCall + s.cbIn + s.cbF1 + s.cbF1b + s.cbF2 + s.cbF2b + s.cbF3 + s.cbF3b + s.cbF3c + s.cbF4 + s.cbF4n + s.cbF4b + s.cbFx
 
-/-- the T-gen tie: sync-operation sequences the program counters above assume (compared with Gen.Life in Tie/Life.lean) -/
-def expect_locker_closeBy : List String := ["atomic.CompareAndSwapInt32(&l.keychain[closing],0,w)"]
-def expect_locker_lock : List String := ["atomic.CompareAndSwapInt32(&l.keychain[k],0,1)"]
-def expect_locker_unlock : List String := ["atomic.StoreInt32(&l.keychain[k],0)"]
-def expect_locker_force : List String := ["atomic.StoreInt32(&l.keychain[k],v)"]
-def expect_locker_status : List String := ["atomic.LoadInt32(&l.keychain[k])"]
-def expect_locker_isCloseBy : List String := ["atomic.LoadInt32(&l.keychain[closing])"]
-def expect_locker_stop : List String :=
-  ["atomic.CompareAndSwapInt32(&l.keychain[k],0,2)", "atomic.LoadInt32(&l.keychain[k])", "runtime.Gosched()"]
-def expect_onHup : List String :=
-  ["c.closeBy(poller)", "c.triggerRead(Exception(ErrEOF, \"peer close\"))",
-   "c.triggerWrite(Exception(ErrConnClosed, \"peer close\"))", "c.onDisconnect()",
-   "c.onConnectCallback.Load()", "c.onRequestCallback.Load()", "c.inputBuffer.Len()", "c.getState()",
-   "c.onProcess(nil,req)", "c.closeCallback(true,false)"]
-def expect_onClose : List String :=
-  ["c.closeBy(user)", "c.triggerRead(Exception(ErrConnClosed, \"self close\"))",
-   "c.triggerWrite(Exception(ErrConnClosed, \"self close\"))", "c.closeCallback(true,true)",
-   "c.force(closing,user)", "c.closeCallback(true,false)"]
-def expect_closeCallback : List String :=
-  ["c.lock(processing)", "c.operator.Control(PollDetach)", "c.closeCallbacks.Load()", "callback CloseCallback callback.fn"]
-def expect_onConnect : List String :=
-  ["c.onConnectCallback.Load()", "c.changeState(connStateNone,connStateConnected)", "c.lock(connecting)",
-   "c.onRequestCallback.Load()", "c.onProcess(onConnect,onRequest)"]
-def expect_onDisconnect : List String :=
-  ["c.onDisconnectCallback.Load()", "c.onConnectCallback.Load()", "c.setState(connStateDisconnected)",
-   "callback OnDisconnect onDisconnect", "c.getState()", "c.lock(connecting)",
-   "c.changeState(connStateConnected,connStateDisconnected)", "callback OnDisconnect onDisconnect", "c.unlock(connecting)"]
-def expect_onRequest : List String :=
-  ["c.onRequestCallback.Load()", "c.getState()", "c.onConnectCallback.Load()", "c.onProcess(nil,onRequest)"]
-def expect_onProcess : List String :=
-  ["c.lock(processing)", "c.IsActive()", "c.unlock(processing)", "c.Close()", "c.closeCallback(false,c.isCloseBy(user))",
-   "c.isCloseBy(user)", "c.changeState(connStateNone,connStateConnected)", "callback OnConnect onConnect",
-   "c.unlock(connecting)", "c.IsActive()", "c.onDisconnect()", "c.Reader().Len()", "callback OnRequest onRequest",
-   "c.status(closing)", "c.Reader().Len()", "callback OnRequest onRequest", "c.closeCallback(false,needDetach)",
-   "c.unlock(processing)", "c.status(closing)", "c.lock(processing)", "c.Reader().Len()", "c.lock(processing)",
-   "runner.RunTask(c.ctx,task)"]
-def expect_inputAck : List String :=
-  ["c.inputBuffer.bookAck(0)", "c.inputBuffer.bookAck(n)", "c.onRequest()", "atomic.LoadInt64(&c.waitReadSize)", "c.triggerRead(nil)"]
-def expect_trigger (ch : String) : List String := ["select", "send " ++ ch]
-def expect_Detach : List String := ["atomic.StoreInt32(&c.detaching,1)", "c.onClose()"]
-def expect_initFinalizer : List String := ["c.stop(flushing)", "c.operator.Free()", "c.netFD.Close()", "c.closeBuffer()"]
-def expect_netFD_Close : List String :=
-  ["atomic.AddUint32(&c.closed,1)", "atomic.LoadInt32(&c.detaching)", "syscall.Close(c.fd)"]
-def expect_op_Control : List String := ["atomic.AddInt32(&op.detached,1)", "op.poll.Control(op,event)"]
-def expect_op_do : List String := ["atomic.CompareAndSwapInt32(&op.state,1,2)"]
-def expect_op_done : List String := ["atomic.StoreInt32(&op.state,1)"]
-def expect_op_unused : List String :=
-  ["atomic.CompareAndSwapInt32(&op.state,1,0)", "atomic.LoadInt32(&op.state)", "runtime.Gosched()"]
-def expect_op_inuse : List String :=
-  ["atomic.CompareAndSwapInt32(&op.state,0,1)", "atomic.LoadInt32(&op.state)", "runtime.Gosched()"]
-def expect_freeable : List String := ["op.unused()", "op.reset()"]
-def expect_onPrepare : List String := ["callback OnPrepare opts.onPrepare", "c.IsActive()", "c.register()"]
-def expect_SetOnRequest : List String := ["c.onRequestCallback.Store(onRequest)", "c.inputBuffer.IsEmpty()", "c.onRequest()"]
-def expect_onAccept : List String :=
-  ["nconn.IsActive()", "s.connections.Delete(fd)", "s.connections.Store(fd,nconn)", "nconn.onConnect()"]
+-- The sync-operation sequences these program counters assume are in Netpoll.Conn.LifeSync (tied to /repo by Netpoll.Tie.Life).
 
 end Netpoll.Conn.Life
